@@ -102,6 +102,20 @@ Theorem c18_histogram_checker_sound : forall bounds counts count sum obs ocount 
 Proof. exact hist_ok_sound. Qed.
 Print Assumptions c18_histogram_checker_sound.
 
+(** Exponential histograms, positive and negative range alike: for every offset and every count list, the
+    exposed bucket i has index offset + i + 1 and the SDK's count i, and the boolean judge applied to the real
+    exporter's output accepts the model's. *)
+Theorem c18_expo_buckets : forall offset counts,
+  (forall i, (i < length counts)%nat ->
+     nth i (expo_buckets offset counts) (0%Z, 0) = ((offset + 1 + Z.of_nat i)%Z, nth i counts 0)) /\
+  length (expo_buckets offset counts) = length counts /\
+  expo_side_ok offset counts (expo_buckets offset counts) = true.
+Proof.
+  intros offset counts. split; [intros i Hi; now apply expo_buckets_nth|]. split; [|apply expo_side_model].
+  rewrite expo_buckets_expected. unfold expo_expected. rewrite combine_length, map_length, seq_length. apply Nat.min_id.
+Qed.
+Print Assumptions c18_expo_buckets.
+
 (** ** Non-vacuity *)
 Definition ex_cfg : config :=
   {| utf8 := false; without_units := false; without_counter_suffixes := false;
@@ -141,3 +155,9 @@ Example ex_hist :
   expose_hist [1; 2; 5]%Z [1; 1; 0; 1] 3 76 = Some ([(1%Z, 1); (2%Z, 2); (5%Z, 2)], 3, 76%Z) /\
   hist_ok [1; 2; 5]%Z [1; 1; 0; 1] 3 76 [(1%Z, 1); (2%Z, 1); (5%Z, 0)] 3 76 = false.
 Proof. vm_compute. split; reflexivity. Qed.
+
+Example ex_expo :
+  expo_buckets (-3) [2; 0; 5] = [((-2)%Z, 2); ((-1)%Z, 0); (0%Z, 5)] /\
+  expo_side_ok (-3) [2; 0; 5] [((-2)%Z, 2); (0%Z, 5)] = true /\
+  expo_side_ok (-3) [2; 0; 5] [((-3)%Z, 2); ((-1)%Z, 5)] = false.
+Proof. vm_compute. repeat split. Qed.
